@@ -569,7 +569,7 @@ fn verify_family(ctx: &Ctx) {
             times.push(((NOW0 as i64 + d) as u64, NOW0, f));
         }
     }
-    times.extend_from_slice(&[(0, 0, 0), (0, 300, 300), (0, 301, 300), (T48_MAX, T48_MAX, 65535), (T48_MAX, T48_MAX - 65536, 65535), (T48_MAX - 300, T48_MAX, 300), (T48_MAX - 301, T48_MAX, 300)]);
+    times.extend_from_slice(&[(0, 0, 0), (0, 300, 300), (0, 301, 300), (T48_MAX, T48_MAX, 65535), (T48_MAX, T48_MAX - 65536, 65535), (T48_MAX - 300, T48_MAX, 300), (T48_MAX - 301, T48_MAX, 300), (0, 100, 300), (400, 100, 300), (401, 100, 300), (T48_MAX, T48_MAX - 100, 300)]);
     times.sort();
     times.dedup();
     let eo: Vec<(u16, Vec<u8>)> = vec![(0, vec![]), (18, rm::time48(NOW0 + 5).to_vec()), (16, vec![]), (0, vec![1, 2, 3])];
